@@ -268,6 +268,24 @@ Section Final.
   Qed.
 End Final.
 
+(* ================================================================ two file objects in one process *)
+Theorem product_refines F1 F2 (WF1 : wf_file F1 = true) (WF2 : wf_file F2 = true) fuel1 fuel2
+    (Hf1 : fuel_ok F1 fuel1 = true) (Hf2 : fuel_ok F2 fuel2 = true) h :
+  forall s1 s2 a1 a2, Inv F1 s1 -> frames_rel F1 s1 a1 -> Inv F2 s2 -> frames_rel F2 s2 a2 ->
+    forallb (fun wo : bool * op => op_ok (if fst wo then F2 else F1) (snd wo)) h = true ->
+    prod_run (parsers_of F1) (parsers_of F2) fuel1 fuel2 (s1, s2) h = spec_prod_run F1 F2 (a1, a2) h.
+Proof.
+  induction h as [|[w o] h IH]; intros s1 s2 a1 a2 HI1 Hr1 HI2 Hr2 Hok; [reflexivity|].
+  cbn [forallb fst snd] in Hok. apply andb_prop in Hok. destruct Hok as [Ho Hh].
+  cbn [prod_run spec_prod_run]. unfold prod_step, spec_prod_step. cbn [fst snd]. destruct w.
+  - destruct (step_refines F2 WF2 fuel2 Hf2 s2 a2 o HI2 Hr2 Ho) as (Ea & HI2' & Hr2').
+    destruct (step (parsers_of F2) fuel2 s2 o) as [s2' x]. destruct (spec_step F2 a2 o) as [a2' y].
+    cbn [fst snd] in *. rewrite Ea. f_equal. apply IH; auto.
+  - destruct (step_refines F1 WF1 fuel1 Hf1 s1 a1 o HI1 Hr1 Ho) as (Ea & HI1' & Hr1').
+    destruct (step (parsers_of F1) fuel1 s1 o) as [s1' x]. destruct (spec_step F1 a1 o) as [a1' y].
+    cbn [fst snd] in *. rewrite Ea. f_equal. apply IH; auto.
+Qed.
+
 (* ================================================================ the known finding *)
 (* header.file_entry grows when get_entries() runs a DW_LNE_define_file: the answer of LineProg depends
    on whether LineEntries was asked before *)
